@@ -27,7 +27,7 @@ import (
 
 func init() {
 	Register(&Rule{ID: "R-ALIAS-1", Props: []string{"C13", "C03", "C14", "C12"}, Floor: 1,
-		Doc: "spare capacity is never shared: for every named slice type of lib/query that is grown in place (a location is assigned append(<its own value>, …), directly or through a helper that appends to its parameter and returns it — today Header, Record, RecordSet …), (a) a freshly built object never receives such a slice by plain assignment from another object's field without a copy or a three-index cap, when the new object is then handed to code that may append, and (b) slices of such a type are never carved out of one shared allocation with a two-index slice expression (each one's capacity would run into its neighbour) — an append through one owner would otherwise write what another owner reads (genuine defect repaired: the per-group views of aggregate evaluation shared the grouped view's header capacity across worker goroutines)",
+		Doc:      "spare capacity is never shared: for every named slice type of lib/query that is grown in place (a location is assigned append(<its own value>, …), directly or through a helper that appends to its parameter and returns it — today Header, Record, RecordSet …), (a) a freshly built object never receives such a slice by plain assignment from another object's field without a copy or a three-index cap, when the new object is then handed to code that may append, and (b) slices of such a type are never carved out of one shared allocation with a two-index slice expression (each one's capacity would run into its neighbour) — an append through one owner would otherwise write what another owner reads (genuine defect repaired: the per-group views of aggregate evaluation shared the grouped view's header capacity across worker goroutines)",
 		Controls: []string{"CtlSlabRecords", "CtlAliasedHeader"},
 		Run:      ruleAlias1})
 }
@@ -394,25 +394,23 @@ func isGrowth(v ssa.Value) bool {
 
 func init() {
 	Register(&Rule{ID: "R-PAR-12", Props: []string{"C12", "C03"}, Floor: 1,
-		Doc: "per-worker results are folded before they are acted on: where worker goroutines fill the slots xs[thIdx] of a local slice of slices and the parent combines them afterwards, the loop over the workers' slots only updates loop-carried accumulators (and may break) — when that loop is nested inside a loop over the items (a per-item decision across the workers) it does not append to or store into a result collection, because an effect taken inside it happens once per worker slot and makes the outcome depend on how the rows were split among the workers (FULL OUTER JOIN: a right row is unmatched only if NO worker matched it)",
+		Doc:      "per-worker results are folded before they are acted on: where worker goroutines fill the slots xs[thIdx] of a local slice of slices and the parent combines them afterwards, the loop over the workers' slots only updates loop-carried accumulators (and may break) — when that loop is nested inside a loop over the items (a per-item decision across the workers) it does not append to or store into a result collection, because an effect taken inside it happens once per worker slot and makes the outcome depend on how the rows were split among the workers (FULL OUTER JOIN: a right row is unmatched only if NO worker matched it)",
 		Controls: []string{"CtlActsPerWorkerSlot"},
 		Run:      rulePar12})
 }
 
 func rulePar12(c *Ctx) {
-	e := parAnalysis(c.P)
 	n := 0
-	seenParent := map[*ssa.Function]bool{}
-	for _, fam := range e.families {
-		parent := fam.parent
-		if seenParent[parent] {
+	for _, parent := range c.P.FuncsIn(true, "lib/query") {
+		if parent.Parent() != nil || len(parent.AnonFuncs) == 0 {
 			continue
 		}
-		seenParent[parent] = true
-		// slot collections: local make([]S, …) with S a slice type, whose elements are stored inside a region closure
+		// slot collections: a local make([]S, …) with S a slice type, whose elements are stored inside a closure of
+		// this function at an index that is a parameter of the closure (the worker's number) — the closure is the
+		// worker body, however it is started (go statement here, or a helper that runs it)
 		slots := map[ssa.Value]bool{}
-		for _, r := range fam.regions {
-			for _, f := range funcAndClosures(r.fn) {
+		for _, cl := range parent.AnonFuncs {
+			for _, f := range funcAndClosures(cl) {
 				for _, b := range f.Blocks {
 					for _, in := range b.Instrs {
 						st, ok := in.(*ssa.Store)
@@ -428,6 +426,15 @@ func rulePar12(c *Ctx) {
 							continue
 						}
 						if _, inner := sl.Elem().Underlying().(*types.Slice); !inner {
+							continue
+						}
+						byParam := false
+						for _, o := range core.Origins(ia.Index, false) {
+							if p, ok := o.(*ssa.Parameter); ok && p.Parent() == cl {
+								byParam = true
+							}
+						}
+						if !byParam {
 							continue
 						}
 						for _, o := range core.Origins(ia.X, true) {
